@@ -97,6 +97,9 @@ inductive RExp
   | add (a b : RExp)                  -- also t.Add(d)
   | sub (a b : RExp)                  -- also t.Sub(u).Seconds()
   | mul (a b : RExp)
+  | div (a b : RExp)
+  | ceil (a : RExp)                    -- math.Ceil
+  | u64 (a : RExp)                     -- uint64(<float expression>): truncated; undefined outside [0, 2^64)
   | min (a b : RExp)
   | max (a b : RExp)
   | pow (base : Rat) (e : IExp)       -- math.Pow(<constant>, float64(<int expression>))
@@ -121,6 +124,8 @@ inductive AStmt
   | setL (x : Nat) (e : RExp)         -- x := e / x = e
   | ite (c : CExp) (t e : ABlock)     -- if / else, switch { case … }
   | ret                               -- return
+  | retNil                            -- return nil
+  | retErr                            -- return <an error>
   | lock                              -- tb.mu.Lock()
   | unlock                            -- tb.mu.Unlock()
   | deferUnlock                       -- defer tb.mu.Unlock()
